@@ -424,3 +424,84 @@ Proof.
 Qed.
 
 End WithQ.
+
+(* ------------------------------------------------------------------ no event bound at all: few distinct keys *)
+(* When the buffer is at most `limit` long, every flush is followed by merge_all (F stays 0, the level counter stays
+   <= 4, depth <= 3).  The buffer is enlarged only when merge_all leaves >= 0.95 * capacity entries, all with distinct
+   keys; if the events have fewer distinct keys than that, it never grows and ANY number of events is safe. *)
+Lemma ssorted_NoDup l : ssorted l -> NoDup (keys l).
+Proof.
+  unfold ssorted. induction 1 as [|x t Ht IH F]; constructor; [|exact IH].
+  intros Hin. rewrite Forall_forall in F. specialize (F x Hin). lia.
+Qed.
+
+Section Compact.
+Variable Q : Z * Z * Z -> Prop.
+Variable K : list Z.                                   (* the keys that can occur *)
+Hypothesis QK : forall t, Q t -> In (snd t) K.
+
+Lemma ssorted_le_K l : ssorted l -> keys_nonneg Q l -> zlen l <= zlen K.
+Proof.
+  intros Hs Hk. pose proof (ssorted_NoDup l Hs) as ND.
+  assert (I : incl (keys l) K).
+  { intros x Hx. unfold keys in Hx. apply in_map_iff in Hx. destruct Hx as (e & <- & He).
+    unfold keys_nonneg in Hk. rewrite Forall_forall in Hk. destruct (Hk e He) as [_ Hq].
+    apply QK in Hq. exact Hq. }
+  pose proof (NoDup_incl_length ND I) as L. unfold keys in L. rewrite map_length in L. unfold zlen. lia.
+Qed.
+
+Lemma zlen_live c : 0 <= ind c <= cap c -> zlen (live c) = ind c.
+Proof. intros H. unfold live. apply zlen_firstn. exact H. Qed.
+
+Lemma appends_compact limit n : forall evs c E,
+  1 <= limit -> VInv Q limit c 0 E -> ind c <= cap c - 2 -> cap c = n -> 20 <= n <= limit -> keys_nonneg Q evs ->
+  6 < 2 ^ (zlen (mn c) - 1) -> 20 * zlen K < 19 * n ->
+  exists c',
+    appends limit c evs = Ok c' /\ VInv Q limit c' 0 (E + zlen evs) /\ ind c' <= cap c' - 2 /\ cap c' = n /\
+    zlen (mn c') = zlen (mn c) /\ depth c' <= 3 /\
+    (forall k, sumby (live c') k = sumby (live c) k + sumby evs k).
+Proof.
+  induction evs as [|ev t IH]; intros c E Hl HV Hic Hcap Hn Hk H6 HK.
+  - exists c. replace (E + zlen (@nil entry)) with E by (zl; lia).
+    split; [reflexivity|]. split; [exact HV|]. split; [exact Hic|]. split; [exact Hcap|]. split; [reflexivity|].
+    split; [|intros k; simpl; lia].
+    destruct HV as ((S0 & _ & [D|D]) & _); [lia|]. pose proof (so_depth Q c S0) as Hd.
+    destruct (Z_lt_le_dec 3 (depth c)); [|lia].
+    pose proof (pow2_mono 3 (depth c - 1) ltac:(lia)) as HH. change (2 ^ 3) with 8 in HH. lia.
+  - zl. inversion_clear Hk as [|? ? Hev Ht]. pose proof (zlen_nonneg t) as Lt.
+    destruct (coo_append_v Q limit c 0 E ev Hl HV Hic ltac:(lia) Hev ltac:(lia)) as (c1 & F1 & E1 & V1 & J1 & C1 & U1 & FF & GG).
+    simpl appends. rewrite E1. cbn [bind].
+    assert (F1 = 0) by (destruct FF as [->|(_ & FF)]; lia). subst F1.
+    destruct GG as [(G1 & G2)|(_ & _ & _ & _ & _ & Gs & Gi)].
+    + destruct (IH c1 (E + 1) Hl V1 J1 ltac:(lia) Hn Ht ltac:(rewrite G2; exact H6) HK)
+        as (c' & E' & V' & J' & C' & Z' & D' & U').
+      exists c'. split; [exact E'|]. replace (E + (1 + zlen t)) with (E + 1 + zlen t) by lia.
+      split; [exact V'|]. split; [exact J'|]. split; [exact C'|]. split; [lia|]. split; [exact D'|].
+      intros k. rewrite U', U1. simpl. lia.
+    + (* the buffer cannot grow: merge_all left distinct keys only, and there are fewer than 0.95 * capacity *)
+      exfalso. destruct V1 as ((S1 & _) & _).
+      pose proof (so_ind Q c1 S1) as Hi1. pose proof (Z.abs_nonneg (nthZ (mn c1) 0)).
+      pose proof (ssorted_le_K (live c1) Gs (so_keys Q c1 S1)) as HL.
+      rewrite zlen_live in HL by lia. lia.
+Qed.
+
+Theorem run_total_compact limit n mlen evs :
+  1 <= limit -> 20 <= n <= limit -> 4 <= mlen -> keys_nonneg Q evs -> 20 * zlen K < 19 * n ->
+  exists s, run limit n mlen evs = Ok s /\ (forall k, denote s k = sumby evs k) /\
+            StronglySorted Z.lt (map e_key (live s)) /\ keys_nonneg Q (live s).
+Proof.
+  intros Hl Hn Hm Hk HK.
+  pose proof (init_VInv Q limit n mlen ltac:(lia) ltac:(lia)) as V0.
+  assert (Z0 : zlen (mn (init n mlen)) = mlen) by (simpl; zl; lia).
+  assert (C0 : cap (init n mlen) = n) by (unfold cap; simpl; zl; lia).
+  assert (H6 : 6 < 2 ^ (mlen - 1)).
+  { pose proof (pow2_mono 3 (mlen - 1) ltac:(lia)). change (2 ^ 3) with 8 in *. lia. }
+  destruct (appends_compact limit n evs (init n mlen) 0) as (c & E & V & J & C & Z & D & U); auto;
+    try (rewrite ?C0, ?Z0; simpl ind; lia).
+  destruct V as (I & _ & _).
+  destruct (finish_ok Q c (4 * (0 + 1))) as (s & Ef & Sf & Uf & Ss); [exact I|lia|rewrite Z, Z0; simpl; lia|].
+  exists s. unfold run. rewrite E. cbn [bind]. split; [exact Ef|]. split; [|split; [exact Ss|apply Sf]].
+  intros k. unfold denote. rewrite Uf, U. simpl. lia.
+Qed.
+
+End Compact.
